@@ -179,7 +179,12 @@ def module_text(classes, hook=False):
     if hook:
         out.append(LOAD_TESTS % ', '.join(c[0] for c in classes))
     out.append("if __name__ == '__main__':\n    ReferenceTestCase.main()\n")
-    return '\n'.join(out)
+    text = '\n'.join(out)
+    if sum(map(ord, text)) % 4 == 0:
+        # the module-level entry point (tdda.referencetest.referencetestcase.main) instead of the class method
+        text = text.replace("if __name__ == '__main__':\n    ReferenceTestCase.main()\n",
+                            "if __name__ == '__main__':\n    from tdda.referencetest import referencetestcase as _rtc\n    _rtc.main()\n")
+    return text
 
 
 def effective(classes):
@@ -305,6 +310,8 @@ def run_sequence(workdir, idx, text, argvs):
     import json
     path = os.path.join(workdir, 's%d' % idx)
     os.makedirs(path, exist_ok=True)
+    text = text.replace("if __name__ == '__main__':\n    from tdda.referencetest import referencetestcase as _rtc\n    _rtc.main()\n",
+                        "if __name__ == '__main__':\n    ReferenceTestCase.main()\n")
     text = text.replace("if __name__ == '__main__':\n    ReferenceTestCase.main()\n", SEQ_MAIN)
     with open(os.path.join(path, 'mod.py'), 'w') as f:
         f.write(text)
